@@ -218,6 +218,33 @@ func genC13(cfg runCfg, e *emitter, rng *rand.Rand) {
 					e.count("pol_restore_" + mode)
 				}()
 			}
+			// "the reported byte counts equal the bytes consumed": the stream goes on after the forest
+			// (another forest, a trailer); exactly the reported number of bytes may be taken from the reader
+			for _, mode := range modeNames {
+				cr := modes[mode]()
+				trailer := make([]byte, 1+rng.Intn(6000))
+				rng.Read(trailer)
+				cr.data = append(append([]byte{}, data...), trailer...)
+				func() {
+					defer func() {
+						if r := recover(); r != nil {
+							e.hfail("pol.restore.trailing.panic."+mode, "%v", r)
+						}
+					}()
+					rn, rp, err := u.RestorePollardFrom(cr)
+					if err != nil {
+						e.hfail("pol.restore.trailing."+mode, "valid stream followed by other data rejected: %v", err)
+						return
+					}
+					if int(rn) != len(data) || cr.off != len(data) {
+						e.hfail("pol.restore.consumed."+mode, "forest is %d bytes, reported %d, taken from the reader %d", len(data), rn, cr.off)
+					}
+					if !bytes.Equal(pollardBytes(rp), data) {
+						e.hfail("pol.restore.trailing.state."+mode, "restored pollard serializes differently")
+					}
+					e.count("pol_restore_trailing_" + mode)
+				}()
+			}
 			for _, cut := range cutPoints(len(data), maxCuts) {
 				func() {
 					defer func() {
@@ -308,6 +335,32 @@ func genC13(cfg runCfg, e *emitter, rng *rand.Rand) {
 							observePartial(e, &partialInst{m: &m2, R: pi.R}, rf, dead, rng)
 						}
 						e.count("map_restore_" + mode)
+					}()
+				}
+				for _, mode := range modeNames {
+					cr := modes[mode]()
+					trailer := make([]byte, 1+rng.Intn(6000))
+					rng.Read(trailer)
+					cr.data = append(append([]byte{}, data...), trailer...)
+					func() {
+						defer func() {
+							if r := recover(); r != nil {
+								e.hfail(name+".read.trailing.panic."+mode, "%v", r)
+							}
+						}()
+						m2 := u.NewMapPollard(mm.Full)
+						rn, err := m2.Read(cr)
+						if err != nil {
+							e.hfail(name+".read.trailing."+mode, "valid stream followed by other data rejected: %v", err)
+							return
+						}
+						if rn != len(data) || cr.off != len(data) {
+							e.hfail(name+".read.consumed."+mode, "forest is %d bytes, reported %d, taken from the reader %d", len(data), rn, cr.off)
+						}
+						if d := sameDump(orig, dumpMap(&m2)); d != "" {
+							e.hfail(name+".read.trailing.state."+mode, "restored maps differ: %s", d)
+						}
+						e.count("map_restore_trailing_" + mode)
 					}()
 				}
 				for _, cut := range cutPoints(len(data), maxCuts) {
